@@ -38,9 +38,19 @@ let rec parse_block (ts : string list) : prog * string list =
        let sv = if v = "nil" then SNil else SInt (z_of_int (int_of_string v)) in
        mk (ISetElem (n_of_int (int_of_string x), z_of_int (int_of_string k), sv)) r
      | 'c' -> let (x, y) = split2 (rest w) '=' in mk (ICopy (n_of_int (int_of_string x), n_of_int (int_of_string y))) r
+     | 'A' -> let (xk, y) = split2 (rest w) '=' in let (x, k) = split2 xk '.' in
+       mk (ISetElemVar (n_of_int (int_of_string x), z_of_int (int_of_string k), n_of_int (int_of_string y))) r
+     | 'g' -> let (y, xk) = split2 (rest w) '=' in let (x, k) = split2 xk '.' in
+       mk (IGetElem (n_of_int (int_of_string y), n_of_int (int_of_string x), z_of_int (int_of_string k))) r
+     | 'C' -> let (x, items) = split2 (rest w) '=' in
+       let item it = if it.[0] = 'v' then CVar (n_of_int (int_of_string (rest it))) else CLit (SInt (z_of_int (int_of_string (rest it)))) in
+       mk (IConst (n_of_int (int_of_string x), List.map item (String.split_on_char ',' items))) r
      | 'v' -> mk (IPrintVar (n_of_int (int_of_string (rest w)))) r
      | 'e' -> let (x, k) = split2 (rest w) '.' in mk (IPrintElem (n_of_int (int_of_string x), z_of_int (int_of_string k))) r
-     | 't' -> let (q, r1) = parse_block r in mk (IThread q) r1
+     | 't' ->
+       let args = if String.length w > 2 && w.[1] = ':' then
+           List.map (fun a -> n_of_int (int_of_string a)) (String.split_on_char ',' (String.sub w 2 (String.length w - 3))) else [] in
+       let (q, r1) = parse_block r in mk (IThread (args, q)) r1
      | _ -> parse_block r)
 let pr_str (p : pr) : string =
   match p with
@@ -51,6 +61,7 @@ let pr_str (p : pr) : string =
   | PVal (SFloat _) -> "float"
   | PVal (SObj _) -> "object"
   | PArr -> esc "Type: 'array'"
+  | PCon -> esc "Type: 'const array'"
 let obs_str (o : obs) : string =
   let d = if o.prints = [] then "-" else String.concat "," (List.map pr_str o.prints) in
   Printf.sprintf "%s idle=%d waiting=%d" d (if o.idle then 1 else 0) (if o.waiting then 1 else 0)
@@ -62,10 +73,30 @@ let rec plen (p : prog) : int = match p with PEnd -> 0 | PSeq (_, q) -> 1 + plen
 let key_cmp (a : string) (b : string) : int =
   if String.length a <> String.length b then compare (String.length a) (String.length b) else compare a b
 let dump (s : st) : string =
-  let numbering : ((int * int) * int) list ref = ref [] in
+  let numbering : (int * int) list ref = ref [] in
   let b = Buffer.create 256 in
   Buffer.add_string b "L";
   let tname : (int * string) list ref = ref [] in
+  let rec val_str (v : value) : string =
+    match v with
+    | VScal sc -> scal_str sc
+    | VArr r | VCon r ->
+      let con = (match v with VCon _ -> true | _ -> false) in
+      let tag = if con then "c#" else "a#" in
+      let key = int_of_n r in
+      (match List.assoc_opt key !numbering with
+       | Some nn -> tag ^ string_of_int nn
+       | None ->
+         let nn = List.length !numbering + 1 in
+         numbering := (key, nn) :: !numbering;
+         let o = heap_get r s.heap in
+         if con then
+           tag ^ string_of_int nn ^ "[" ^ String.concat "," (List.map (fun (_, x) -> val_str x) o) ^ "]"
+         else begin
+           let ents = List.map (fun (k, x) -> ("i:" ^ string_of_int (int_of_z k), x)) o in
+           let ents = List.sort (fun (a, _) (c, _) -> key_cmp a c) ents in
+           tag ^ string_of_int nn ^ "{" ^ String.concat "," (List.map (fun (k, x) -> k ^ "=" ^ val_str x) ents) ^ "}"
+         end) in
   List.iteri (fun ii chain ->
       Buffer.add_string b " I[";
       List.iteri (fun tj h ->
@@ -77,22 +108,8 @@ let dump (s : st) : string =
            | Some e ->
              let t = e.ethr in
              let vars = List.filter (fun (_, v) -> v <> VScal SNil) t.tenv in
-             (* the last binding of a name wins in env_set?  env_set replaces in place: names are unique *)
              let vars = List.sort (fun (x, _) (y, _) -> compare ("x" ^ string_of_int (int_of_n x)) ("x" ^ string_of_int (int_of_n y))) vars in
-             let vs = List.map (fun (x, v) ->
-                 "x" ^ string_of_int (int_of_n x) ^ "=" ^
-                 (match v with
-                  | VScal sc -> scal_str sc
-                  | VArr r ->
-                    let key = (hi, int_of_n r) in
-                    (match List.assoc_opt key !numbering with
-                     | Some nn -> "a#" ^ string_of_int nn
-                     | None ->
-                       let nn = List.length !numbering + 1 in
-                       numbering := (key, nn) :: !numbering;
-                       let ents = List.map (fun (k, sc) -> ("i:" ^ string_of_int (int_of_z k), scal_str sc)) (heap_get r t.theap) in
-                       let ents = List.sort (fun (a, _) (c, _) -> key_cmp a c) ents in
-                       "a#" ^ string_of_int nn ^ "{" ^ String.concat "," (List.map (fun (k, v) -> k ^ "=" ^ v) ents) ^ "}"))) vars in
+             let vs = List.map (fun (x, v) -> "x" ^ string_of_int (int_of_n x) ^ "=" ^ val_str v) vars in
              Buffer.add_string b (Printf.sprintf "T(timing,rem%d,{%s})" (plen t.tcode) (String.concat "," vs)))) chain;
       Buffer.add_string b "]") s.insts;
   Buffer.add_string b (Printf.sprintf " timer(dirty=%d,time=%d)[" (if s.dirty then 1 else 0) (int_of_n s.mtime));
